@@ -16,9 +16,9 @@ import (
 
 // Fault kinds injected at a transport operation index.
 const (
-	FaultNone    = 0
-	FaultErr     = 1 // the operation returns an error
-	FaultEOF     = 2 // RecvMessage returns io.EOF (peer hung up)
+	FaultNone = 0
+	FaultErr  = 1 // the operation returns an error
+	FaultEOF  = 2 // RecvMessage returns io.EOF (peer hung up)
 )
 
 // OpKind of a transport operation.
@@ -42,6 +42,9 @@ type Wire struct {
 	Sink func(b []byte)
 	// SendHook, if set, runs at the start of every send (a slow or descheduled transport).
 	SendHook func()
+	// Gate, if set, sees every outgoing message before it goes on the wire and may block (a transport whose write of
+	// this message takes a while).  Set and cleared by the harness through SetGate.
+	gate     func(m Msg)
 	mu       sync.Mutex
 	in       [][]byte // peer -> Conn
 	inSig    chan struct{}
@@ -51,11 +54,11 @@ type Wire struct {
 	closedCh chan struct{}
 	closeN   int
 
-	ops      []OpRec
-	Faults   map[int]int // op index -> fault kind
-	live     int         // messages created and not yet released
+	ops            []OpRec
+	Faults         map[int]int // op index -> fault kind
+	live           int         // messages created and not yet released
 	sentAfterClose int
-	RecvHungUp bool // the peer hung up: RecvMessage returns io.EOF once the queue is empty
+	RecvHungUp     bool // the peer hung up: RecvMessage returns io.EOF once the queue is empty
 }
 
 func NewWire() *Wire {
@@ -69,6 +72,13 @@ func (w *Wire) op(kind string) (int, int) {
 	f := w.Faults[i]
 	w.ops = append(w.ops, OpRec{i, kind, f})
 	return i, f
+}
+
+// SetGate installs (or, with nil, removes) the outgoing-message gate.
+func (w *Wire) SetGate(g func(m Msg)) {
+	w.mu.Lock()
+	w.gate = g
+	w.mu.Unlock()
 }
 
 // Ops returns the operations performed so far.
@@ -111,6 +121,12 @@ func (w *Wire) NewMessage(ctx context.Context) (rpccp.Message, func() error, cap
 		b, err := msg.Marshal()
 		if err != nil {
 			return err
+		}
+		w.mu.Lock()
+		g := w.gate
+		w.mu.Unlock()
+		if g != nil {
+			g(Parse(b))
 		}
 		w.mu.Lock()
 		if w.closed {
@@ -309,29 +325,29 @@ type CapDesc struct {
 
 // Msg is a flat summary of an rpc.capnp message.
 type Msg struct {
-	Which     string    `json:"which"`
-	ID        uint32    `json:"id"` // questionId / answerId / export id
-	TargetKind string   `json:"target_kind,omitempty"`
-	TargetID  uint32    `json:"target_id,omitempty"`
-	Transform []uint16  `json:"transform,omitempty"`
-	Iface     uint64    `json:"iface,omitempty"`
-	Method    uint16    `json:"method,omitempty"`
-	RetKind   string    `json:"ret_kind,omitempty"` // results exception canceled ...
-	Serial    uint64    `json:"serial,omitempty"`   // data word 0 of params/results content
-	Flags     uint64    `json:"flags,omitempty"`    // data word 1 of params content (behaviour flags)
-	ContentKind string  `json:"content_kind,omitempty"` // null struct list cap
-	ContentCap int      `json:"content_cap"`         // capability index if the content is an interface pointer, else -1
-	PtrCaps   []int     `json:"ptr_caps,omitempty"`  // capability index in each pointer field of a struct content (-1 otherwise)
-	Caps      []CapDesc `json:"caps,omitempty"`
-	Reason    string    `json:"reason,omitempty"`
-	ExcType   int       `json:"exc_type,omitempty"`
-	Flag      bool      `json:"flag,omitempty"` // releaseResultCaps / releaseParamCaps
-	Count     uint32    `json:"count,omitempty"`
-	DisCtx    string    `json:"dis_ctx,omitempty"`
-	DisID     uint32    `json:"dis_id,omitempty"`
-	Inner     *Msg      `json:"inner,omitempty"` // unimplemented echo
-	Err       string    `json:"err,omitempty"`
-	Raw       []byte    `json:"-"`
+	Which       string    `json:"which"`
+	ID          uint32    `json:"id"` // questionId / answerId / export id
+	TargetKind  string    `json:"target_kind,omitempty"`
+	TargetID    uint32    `json:"target_id,omitempty"`
+	Transform   []uint16  `json:"transform,omitempty"`
+	Iface       uint64    `json:"iface,omitempty"`
+	Method      uint16    `json:"method,omitempty"`
+	RetKind     string    `json:"ret_kind,omitempty"`     // results exception canceled ...
+	Serial      uint64    `json:"serial,omitempty"`       // data word 0 of params/results content
+	Flags       uint64    `json:"flags,omitempty"`        // data word 1 of params content (behaviour flags)
+	ContentKind string    `json:"content_kind,omitempty"` // null struct list cap
+	ContentCap  int       `json:"content_cap"`            // capability index if the content is an interface pointer, else -1
+	PtrCaps     []int     `json:"ptr_caps,omitempty"`     // capability index in each pointer field of a struct content (-1 otherwise)
+	Caps        []CapDesc `json:"caps,omitempty"`
+	Reason      string    `json:"reason,omitempty"`
+	ExcType     int       `json:"exc_type,omitempty"`
+	Flag        bool      `json:"flag,omitempty"` // releaseResultCaps / releaseParamCaps
+	Count       uint32    `json:"count,omitempty"`
+	DisCtx      string    `json:"dis_ctx,omitempty"`
+	DisID       uint32    `json:"dis_id,omitempty"`
+	Inner       *Msg      `json:"inner,omitempty"` // unimplemented echo
+	Err         string    `json:"err,omitempty"`
+	Raw         []byte    `json:"-"`
 }
 
 func (m Msg) String() string {
@@ -594,14 +610,14 @@ type Pipe struct {
 	closed   bool
 	closedCh chan struct{}
 
-	Accepted   []byte // bytes accepted from the Conn
-	Writes     int
-	Reads      int
-	Fault      *PipeFault
-	Faulted    bool
+	Accepted        []byte // bytes accepted from the Conn
+	Writes          int
+	Reads           int
+	Fault           *PipeFault
+	Faulted         bool
 	AcceptedAtFault int
-	LaterWrites int // bytes accepted in Write calls after the fault fired
-	peerEOF    bool
+	LaterWrites     int // bytes accepted in Write calls after the fault fired
+	peerEOF         bool
 }
 
 func NewPipe() *Pipe { return &Pipe{sig: make(chan struct{}, 1), closedCh: make(chan struct{})} }
